@@ -1,23 +1,111 @@
 """helpers shared by c29.py and c30.py (no property registered here)"""
+import os
 import re
+import shutil
 from fractions import Fraction
 from math import gcd
 
 import numpy as np
 
 from .. import tlaparse
-from ..common import MachineryError, quiet
+from ..common import MachineryError, WORK, quiet
+
+ENVIRONMENT_ERRORS = (OSError, MemoryError, TimeoutError, ImportError, RecursionError, KeyboardInterrupt, MachineryError)
 
 
+# ---------------------------------------------------------------- scratch names (unique per property AND process)
+class Scratch:
+    """names of TLC runs / record batches / work directories of one check run; everything is removed by cleanup()"""
+
+    def __init__(self, pid):
+        self.tag = f"{pid.lower()}_{os.getpid()}"
+        self.tlc_names = []
+        self.rec_names = []
+        self.dirs = []
+
+    def tlc(self, name):
+        n = f"{self.tag}_{name}"
+        self.tlc_names.append(n)
+        return n
+
+    def rec(self, name):
+        n = f"{self.tag}_{name}"
+        self.rec_names.append(n)
+        self.tlc_names.append(f"rec_{n}_0")
+        return n
+
+    def workdir(self, name):
+        d = os.path.join(WORK, f"{self.tag}_{name}")
+        shutil.rmtree(d, ignore_errors=True)
+        os.makedirs(d, exist_ok=True)
+        self.dirs.append(d)
+        return d
+
+    def cleanup(self):
+        for n in self.tlc_names:
+            shutil.rmtree(os.path.join(WORK, "tlc", n), ignore_errors=True)
+        for n in self.rec_names:
+            shutil.rmtree(os.path.join(WORK, "records", n), ignore_errors=True)
+        for d in self.dirs:
+            shutil.rmtree(d, ignore_errors=True)
+
+
+# ---------------------------------------------------------------- exceptions: library failure or the harness's own misuse
+def library_site(ex):
+    """"module.function" if the exception was raised inside the wannierberri package, None if it was raised at the
+    harness's own call site (unknown keyword, renamed private attribute, ...).  Environment errors are re-raised."""
+    if isinstance(ex, ENVIRONMENT_ERRORS):
+        raise ex
+    from ..main import raised_by_code_under_test
+    return raised_by_code_under_test(ex)
+
+
+def skipped(rep, site, ex):
+    """a private name the harness needs is gone / has another signature: the sub-check is skipped, never a VIOLATION"""
+    old = rep.parts.get("skipped_private", {})
+    ent = old.get(site, dict(count=0, error=f"{type(ex).__name__}: {ex}"[:300]))
+    ent["count"] += 1
+    rep.part("skipped_private", **{site: ent})
+
+
+def was_skipped(rep, *sites):
+    sk = rep.parts.get("skipped_private", {})
+    return any(s in sk for s in sites)
+
+
+def guarded(rep, site, detail, fn, *a, **kw):
+    """call fn; -> (True, value) or (False, None).  An exception raised inside the package becomes the violation
+    raises:<site>:<ExcType>; one raised at the harness's call site is recorded under skipped_private."""
+    try:
+        return True, fn(*a, **kw)
+    except Exception as ex:
+        if library_site(ex) is not None:
+            rep.violation(f"raises:{site}:{type(ex).__name__}", dict(detail, exception=repr(ex)[:400], raised_in=library_site(ex)))
+        else:
+            skipped(rep, site, ex)
+        return False, None
+
+
+def info(rep, name, key, n=1):
+    """information that never decides (internal detail the property statement does not name)"""
+    d = rep.parts.get(name, {})
+    rep.part(name, **{key: d.get(key, 0) + n})
+
+
+# ---------------------------------------------------------------- TLC dumps
 def states_where(st, marker='pc = "done"', prob=1.0, rng=None, always=None):
-    """parsed states of a TLC dump that contain `marker` (cheap text filter before parsing); prob < 1: each such state
-    is kept with this probability (seeded rng) -- a fixed stride would be in phase with TLC's enumeration order;
-    states containing one of the `always` strings are kept in any case (rare classes)"""
+    """parsed states of a TLC dump that contain `marker` (cheap text filter before parsing), in an order that does not
+    depend on TLC's worker scheduling: the state texts are sorted before anything is drawn.  prob < 1: each state is kept
+    with this probability (seeded rng; a fixed stride would be in phase with the enumeration); states containing one
+    of the `always` strings are kept in any case (rare classes)"""
     p = st.get("dump_path")
+    if not p or not os.path.exists(p):
+        raise MachineryError(f"no state dump produced ({st.get('meta')})")
     with open(p) as f:
         text = f.read()
-    for chunk in re.split(r"(?m)^State \d+:\s*$", text)[1:]:
-        if marker in chunk and (prob >= 1.0 or (always and any(a in chunk for a in always)) or rng.random() < prob):
+    chunks = sorted(ch for ch in re.split(r"(?m)^State \d+:\s*$", text)[1:] if marker in ch)
+    for chunk in chunks:
+        if prob >= 1.0 or (always and any(a in chunk for a in always)) or rng.random() < prob:
             yield tlaparse.parse_state_body(chunk)
 
 
@@ -26,7 +114,9 @@ def lcm(a, b):
 
 
 def rat(x, maxden=2000, tol=1e-9):
-    """the unique fraction with denominator <= maxden within tol of the float x (None if there is none)"""
+    """the fraction with denominator <= maxden nearest to the float x, None if it is farther than tol"""
+    if not np.isfinite(x):
+        return None
     fr = Fraction(float(x)).limit_denominator(maxden)
     if abs(float(fr) - float(x)) > tol:
         return None
@@ -57,20 +147,39 @@ def cmp_points(got, exp, nd=1, tol=1e-9):
     for j, p in enumerate(exp):
         v = got[j] * (p[3] * nd)
         r = np.rint(v)
-        if np.max(np.abs(v - r)) > tol:
+        if not np.all(np.isfinite(v)) or np.max(np.abs(v - r)) > tol:
             return f"point {j}: {got[j].tolist()} is not a multiple of 1/{p[3] * nd}"
         if [int(x) for x in r] != [p[0], p[1], p[2]]:
             return f"point {j}: {got[j].tolist()} * {p[3] * nd} != {list(p[:3])}"
     return None
 
 
-def random_system(rng, nw=3, generators=None, lattice=None):
-    """tiny random tight-binding model (complex Hermitian hoppings, all orbitals at the origin).
+def diff_mod1(a, b):
+    """largest coordinate difference of two k-point arrays modulo reciprocal lattice vectors (inf if shapes differ)"""
+    a = np.asarray(a, dtype=float)
+    b = np.asarray(b, dtype=float)
+    if a.shape != b.shape:
+        return float("inf")
+    if a.size == 0:
+        return 0.0
+    d = a - b
+    d -= np.round(d)
+    return float(np.max(np.abs(d)))
+
+
+# ---------------------------------------------------------------- tiny models
+def random_system(rng, nw=3, generators=None, lattice=None, centres=False, aa=False, real=False):
+    """tiny random tight-binding model (complex Hermitian hoppings).
     generators: list of integer 3x3 matrices acting on R (reduced coordinates) under which the hoppings are made
     invariant (H(gR) = H(R)); with generators every H(R) is taken Hermitian (then H(R) = H(-R) is consistent with any
-    point group: the model is inversion symmetric as well, time reversal stays broken by the complex entries)."""
+    point group: the model is inversion symmetric as well, time reversal stays broken by the complex entries) and all
+    orbitals sit at the origin.  real: real hoppings (time-reversal symmetric spinless model).
+    centres: random Wannier centres inside the cell; aa: random position matrix elements AA(R) (Hermitian under
+    R -> -R, diagonal of AA(0) = the centres) -- both only without generators."""
     import wannierberri as wb
     r = np.random.RandomState(rng.randrange(1 << 30))
+    if generators and (centres or aa):
+        raise MachineryError("random_system: centres / AA only for models without imposed point group")
     group = [np.eye(3, dtype=int)]
     if generators:
         gens = [np.array(g, dtype=int) for g in generators]
@@ -90,7 +199,7 @@ def random_system(rng, nw=3, generators=None, lattice=None):
     for R in reps:
         if R in ham:
             continue
-        M = r.randn(nw, nw) + 1j * r.randn(nw, nw)
+        M = r.randn(nw, nw) + (0 if real else 1j) * r.randn(nw, nw)
         if R == (0, 0, 0) or generators:
             M = (M + M.conj().T) / 2
         if R != (0, 0, 0):
@@ -106,25 +215,44 @@ def random_system(rng, nw=3, generators=None, lattice=None):
         mR = tuple(-x for x in R)
         if np.max(np.abs(ham[mR] - M.conj().T)) > 1e-14:
             raise MachineryError("random_system: hoppings are not Hermitian under R -> -R")
-    mats = {R: {(i, j): M[i, j] for i in range(nw) for j in range(nw)} for R, M in ham.items()}
     lat = np.array(lattice, dtype=float) if lattice is not None else np.eye(3) + 0.1 * r.randn(3, 3)
-    cen = np.zeros((nw, 3))
+    cen = r.rand(nw, 3) if centres else np.zeros((nw, 3))
+    mats = {"Ham": {R: {(i, j): M[i, j] for i in range(nw) for j in range(nw)} for R, M in ham.items()}}
+    if aa:
+        amat = {}
+        for R in sorted(ham):
+            if R in amat:
+                continue
+            X = 0.3 * (r.randn(nw, nw, 3) + 1j * r.randn(nw, nw, 3))
+            if R == (0, 0, 0):
+                X = (X + X.conj().transpose(1, 0, 2)) / 2
+                cc = cen @ lat
+                for i in range(nw):
+                    X[i, i] = cc[i]
+            amat[R] = X
+            amat[tuple(-x for x in R)] = X.conj().transpose(1, 0, 2) if R != (0, 0, 0) else X
+        mats["AA"] = {R: {(i, j): X[i, j] for i in range(nw) for j in range(nw)} for R, X in amat.items()}
     with quiet():
-        s = wb.system.System_R.from_sparse(real_lattice=lat, wannier_centers_red=cen, matrices={"Ham": mats})
+        s = wb.system.System_R.from_sparse(real_lattice=lat, wannier_centers_red=cen, matrices=mats)
     return s
 
 
-def tab_calculators(which=("Energy", "berry", "vel")):
+WHICH = ("Energy", "berry", "vel", "mass")
+
+
+def tab_calculators(which=WHICH, external=False):
+    """fresh tabulators: Energy, Berry curvature (rank 1, pseudovector), velocity (rank 1), inverse mass (rank 2)"""
     from wannierberri import calculators as calc
     all_ = {"Energy": lambda: calc.tabulate.Energy(),
-            "berry": lambda: calc.tabulate.BerryCurvature(kwargs_formula={"external_terms": False}),
-            "vel": lambda: calc.tabulate.Velocity(kwargs_formula={"external_terms": False})}
+            "berry": lambda: calc.tabulate.BerryCurvature(kwargs_formula={"external_terms": bool(external)}),
+            "vel": lambda: calc.tabulate.Velocity(kwargs_formula={"external_terms": bool(external)}),
+            "mass": lambda: calc.tabulate.InvMass()}
     return {k: all_[k]() for k in which}
 
 
-def eval_point(system, k, which=("Energy", "berry", "vel")):
+def eval_point(system, k, which=WHICH, external=False):
     """the quantities at the single point k (reduced coordinates), evaluated alone: dict name -> array (nb, ...)"""
     import wannierberri as wb
     with quiet():
-        res = wb.evaluate_k(system, k=tuple(float(x) for x in k), calculators=tab_calculators(which), return_single_as_dict=True)
+        res = wb.evaluate_k(system, k=tuple(float(x) for x in k), calculators=tab_calculators(which, external), return_single_as_dict=True)
     return {q: np.array(res[q].data[0]) for q in which}
